@@ -1,7 +1,7 @@
 (* Property C16 - only statements, each closed by [exact]. *)
 From Coq Require Import NArith List Bool.
 Import ListNotations.
-Require Import UV.Gen.Consts UV.C16.Model UV.C16.Proofs UV.C16.Frame UV.C16.Dirs UV.C16.Files UV.C16.Pick UV.C16.NoMix UV.C16.Merge.
+Require Import UV.Gen.Consts UV.C16.Model UV.C16.Proofs UV.C16.Frame UV.C16.Dirs UV.C16.Files UV.C16.Pick UV.C16.NoMix UV.C16.Merge UV.C16.Split.
 Local Open Scope N_scope.
 
 (* read_all: for EVERY segmentation of the stream (chunks of any size, EINTRs in between) a request of
@@ -366,3 +366,13 @@ Theorem C16_invalid_metadata_name_ignored : forall fx f d t rest, nonul f = true
   exists t', handle_client_sock fx t = Handled (if fx then ANone else AAppend f d) t' /\ good t' = true /\ bytes_of t' = rest.
 Proof. exact invalid_name_ignored. Qed.
 Print Assumptions C16_invalid_metadata_name_ignored.
+
+(* read_all composes, for EVERY segmentation of the stream: a request of n1 bytes followed by a request of n2 bytes
+   delivers, together, exactly the bytes one request of n1 + n2 bytes delivers and leaves the same rest - how the
+   receiver splits a message into header and payload reads does not change what it sees. *)
+Theorem C16_read_all_composes : forall t n1 n2, good t = true -> (n1 + n2 <= length (bytes_of t))%nat ->
+  exists b1 t1 b2 t2 t12,
+    read_all t n1 = Some (b1, t1) /\ read_all t1 n2 = Some (b2, t2) /\
+    read_all t (n1 + n2) = Some (b1 ++ b2, t12) /\ bytes_of t2 = bytes_of t12.
+Proof. exact read_all_composes. Qed.
+Print Assumptions C16_read_all_composes.
